@@ -74,7 +74,7 @@ const (
 	_ // CommandPing
 	_ // CommandTime
 	_ // CommandDelayedInsert
-	_ // CommandChangeUser
+	CommandChangeUser
 	_ // CommandBinLogDump
 	_ // CommandTableDump
 	_ // CommandConnectOut
@@ -487,6 +487,14 @@ func (handler *Handler) ProxyClientConnection(ctx context.Context, errCh chan<- 
 		case CommandStatementReset:
 			clientLog.Debugln("Reset Request Statement")
 			handler.setQueryHandler(handler.ResetStatementResponseHandler)
+		case CommandChangeUser:
+			// the server authenticates the new account the way it authenticates a new connection: it may ask
+			// for another authentication method or for more data, and what the client sends then is
+			// authentication data, not a command (it may well start with the byte of COM_QUIT or COM_QUERY).
+			// The database side ends this phase when the server accepts (OK) or refuses (ERR) the account
+			clientLog.Debugln("Change user command")
+			handler.connectionPhaseFinished.Store(false)
+			handler.resetQueryHandler()
 		default:
 			clientLog.Debugf("Command %d not supported now", cmd)
 			// its response is relayed as is; a handler left over from a previous command (for example the one
@@ -1094,8 +1102,10 @@ func (handler *Handler) ProxyDatabaseConnection(ctx context.Context, errCh chan<
 		if packet.IsErr() {
 			handler.resetQueryHandler()
 		}
-		if state == stateServe && !handler.connectionPhaseFinished.Load() && packet.data[0] == OkPacket {
-			// the server accepted the client: from now on the client sends commands
+		if state == stateServe && !handler.connectionPhaseFinished.Load() && (packet.data[0] == OkPacket || packet.IsErr()) {
+			// the server accepted the client: from now on the client sends commands. So it does after an ERR
+			// packet that refuses a COM_CHANGE_USER: the session goes on as the account it was (the ERR packet
+			// that refuses a new connection is followed by nothing)
 			handler.connectionPhaseFinished.Store(true)
 		}
 
